@@ -124,6 +124,41 @@ def check(rep, tier):
     except Exception as e:
         rec["error"] = e
     recs.append(rec)
+    # more than 10000 steps with DIFFERENT strides in the two stages (cooling stride 2, solidification stride 1)
+    S = sr.make(dim="spatial_1D", height=0.05, diameter=0.05, K=200, prog=dict(start=20, end=-50, rate=1 / 60, holds=[{"duration": 300, "temp": -5}], t_tot=12000.0, dt=1.0))
+    dt, n = sr.step_info(S)
+    rec = dict(label="spatial_1D long (strides 2/1) steps=%d" % n, dim="spatial_1D", conf="shelf", S=S, dt=dt, nsteps=n, prog=dict(t_tot=12000.0), error=None)
+    try:
+        sr.run(S)
+    except Exception as e:
+        rec["error"] = e
+    recs.append(rec)
+    # the same object run again with ANOTHER program: results (or the exception) are those of the program configured now
+    oc = impl.opcond_mod()
+    for dim, h, K in (("homogeneous", 0.01, 50), ("spatial_1D", 0.05, 200)):
+        S = sr.make(dim=dim, height=h, diameter=0.05, K=K, prog=dict(start=20, end=-50, rate=1 / 60, holds=[{"duration": 300, "temp": -5}], t_tot=9000.0, dt=1.0))
+        dt, n = sr.step_info(S)
+        try:
+            sr.run(S)
+            for prog2 in (dict(start=20, end=-50, rate=1 / 60, holds=[{"duration": 100, "temp": -8}], t_tot=9000.0, dt=1.0),
+                          dict(start=20, end=-50, rate=1 / 60, holds=[], t_tot=1200.0, dt=1.0)):
+                import gen_opcond
+                S.opcond = gen_opcond.build(prog2, oc)
+                rec = dict(label="%s re-run after opcond replaced (%s)" % (dim, {k: prog2[k] for k in ("holds", "t_tot")}), dim=dim, conf="shelf", S=S, dt=dt, nsteps=n, prog=prog2, error=None)
+                try:
+                    sr.run(S)
+                except Exception as e:
+                    rec["error"] = e
+                if prog2["t_tot"] < 2000 and rec["error"] is None:
+                    rep.violation("stale-program-after-rerun", "%s: a process of %g s cannot nucleate, yet the re-run returns a complete result (t_fr=%r min)" % (rec["label"], prog2["t_tot"], float(S.results["t_fr"].iloc[0])), dict(run=rec["label"]))
+                elif rec["error"] is None:
+                    nv = len(rep.violations)
+                    judge(rep, rec, [])
+                    for v in rep.violations[nv:]:
+                        v["key"] = "rerun " + v["key"]
+                rep.case(rec["label"], nontrivial=True)
+        except Exception as e:
+            rep.violation("rerun-crash %s" % type(e).__name__, "%s re-run raises %r" % (dim, e), dict(dim=dim))
     for rec in recs:
         rep.case(rec["label"], nontrivial=rec["error"] is None, sample=dict(run=rec["label"], steps=rec["nsteps"], error=repr(rec["error"])) if len(rep.samples) < 5 else None)
         judge(rep, rec, cases)
